@@ -697,7 +697,8 @@ class MeshGen:
             hdr[name] = {"offset": r.choice([0, 7]), "size": r.choice([0, 11])}
             if r.random() < 0.3:
                 hdr[name]["mesh_triangles"] = r.randrange(0, 100)
-            m.segments[name] = [self.material(rigged and name != "physics_mesh") for _ in range(r.randrange(1, 4))]
+            # (a segment that is present but empty - a LOD with no materials, an empty map - is a value like any other)
+            m.segments[name] = [self.material(rigged and name != "physics_mesh") for _ in range(r.choice([0, 1, 1, 2, 3]))]
         if r.random() < 0.6:
             hdr["physics_convex"] = {"offset": 0, "size": 0}
             seg = {"Max": [0.5, 0.5, r.uniform(0, 1)], "Min": [-0.5, -0.5, r.uniform(-1, 0)]}
@@ -707,7 +708,7 @@ class MeshGen:
                 hl = [r.choice([1, 3, 255, 0]) for _ in range(r.randrange(0, 4))]
                 seg["HullList"] = hl
                 seg["Positions"] = [Vector3(self.unit(-1, 1), self.unit(-1, 1), self.unit(-1, 1)) for _ in range(min(sum(hl), 12))]
-            m.segments["physics_convex"] = seg
+            m.segments["physics_convex"] = seg if r.random() < 0.85 else {}
         if rigged and r.random() < 0.8:
             hdr["skin"] = {"offset": 0, "size": 0}
             nj = r.randrange(1, 4)
@@ -726,7 +727,7 @@ class MeshGen:
                                            "HullMassProps": {"CoM": [0.0, 0.5, 1.0], "mass": 2.5, "volume": 0.125, "inertia": [0.0] * 9}}
         if r.random() < 0.15:
             hdr["x_custom"] = {"offset": 0, "size": 0}
-            m.segments["x_custom"] = {"anything": [1, "two", 3.0], "nested": {"k": UUID(int=r.getrandbits(128))}}
+            m.segments["x_custom"] = {"anything": [1, "two", 3.0], "nested": {"k": UUID(int=r.getrandbits(128))}} if r.random() < 0.7 else {}
         # header keys in a seeded order: segment order in the file must not depend on it
         keys = list(hdr)
         r.shuffle(keys)
